@@ -178,7 +178,7 @@ type c19Obs struct {
 
 // switchTo: when not nil, the session starts under env and the first resume carries switchTo (the host turned redaction on)
 func c19Run(env envs.Environment, us []c19URN, b bool, name string, trigger string, inputs []string, switchTo envs.Environment) (*c19Obs, error) {
-	src, err := static.NewSource([]byte(c19Assets))
+	src, err := static.NewSource(c19AssetsJSON())
 	if err != nil {
 		return nil, err
 	}
@@ -277,7 +277,7 @@ var c19Sendable = map[string]bool{"tel": true, "twitter": true, "twitterid": tru
 
 // the contact context of the implementation, in the model's vocabulary (schemes, paths and displays interned)
 func c19ModelOp(c *Ctx, env envs.Environment, redact bool, us []c19URN, b bool, name string, desc map[string]any) {
-	src, err := static.NewSource([]byte(c19Assets))
+	src, err := static.NewSource(c19AssetsJSON())
 	if err != nil {
 		return
 	}
@@ -391,6 +391,21 @@ func c19ModelOp(c *Ctx, env envs.Environment, redact bool, us []c19URN, b bool, 
 	c.Model("ctxview", op, exp, desc)
 }
 
+// the second stream's assets: two more tel channels, so that which channel a tel URN goes out on is picked by the number
+var c19TwoTelChannels bool
+
+func c19AssetsJSON() []byte {
+	if !c19TwoTelChannels {
+		return []byte(c19Assets)
+	}
+	return []byte(strings.Replace(c19Assets, `    {"uuid": "8e21f093-99aa-413b-b55b-758b54308fcb", "name": "Twitter",`,
+		`    {"uuid": "6f5fb9b7-5b1c-4c0a-9d2e-0000000000a1", "name": "Seattle", "address": "+12065550000", "schemes": ["tel"], "roles": ["send", "receive"], "country": "US"},
+    {"uuid": "6f5fb9b7-5b1c-4c0a-9d2e-0000000000a2", "name": "Tacoma", "address": "+12067770000", "schemes": ["tel"], "roles": ["send", "receive"], "country": "US"},
+    {"uuid": "8e21f093-99aa-413b-b55b-758b54308fcb", "name": "Twitter",`, 1))
+}
+
+var c19ChannelLeaf = regexp.MustCompile(`(^|[./])contact\.channel\.(name|address|uuid|__default__)(\||$)`)
+
 func runC19(c *Ctx) {
 	r := c.Rng
 	envOn := envs.NewBuilder().WithRedactionPolicy(envs.RedactionPolicyURNs).WithDefaultCountry("US").Build()
@@ -491,6 +506,48 @@ func runC19(c *Ctx) {
 			}
 		}
 	}
+
+	// ---- several tel channels: the channel a tel URN goes out on is picked by the number ---------------------------
+	// (only what the context says about the contact's channel is compared here: everything else is the first stream's, whose
+	// assets have one tel channel so that this choice cannot hide or mimic another difference)
+	c19TwoTelChannels = true
+	for i := 0; i < c.N(25, 600); i++ {
+		us := genC19URNs(r)
+		hasTel := false
+		for _, u := range us {
+			hasTel = hasTel || u.scheme == "tel"
+		}
+		if !hasTel {
+			continue
+		}
+		var ua, ub []string
+		for _, u := range us {
+			ua, ub = append(ua, string(u.raw(false))), append(ub, string(u.raw(true)))
+		}
+		desc := map[string]any{"urns_a": ua, "urns_b": ub, "tel_channels": []string{"Android +17036975131", "Seattle +12065550000", "Tacoma +12067770000"}}
+		var a, b *c19Obs
+		var ea, eb error
+		if c.Guard("M-noninterference", "panic:session", desc, func() {
+			a, ea = c19Run(envOn, us, false, "Ann Lee", "manual", nil, nil)
+			b, eb = c19Run(envOn, us, true, "Ann Lee", "manual", nil, nil)
+		}) || ea != nil || eb != nil {
+			continue
+		}
+		c.Count("check:M-noninterference:two-tel-channels")
+		differs := ""
+		for k := range a.paths {
+			if a.paths[k] != b.paths[k] && c19ChannelLeaf.MatchString(k) && (differs == "" || k < differs) {
+				differs = k
+			}
+		}
+		c.Eval(fmt.Sprintf("two-tel|%d|%v", len(us), differs != ""))
+		if differs != "" {
+			desc["path"], desc["value_a"], desc["value_b"] = differs, a.paths[differs], b.paths[differs]
+			c.Fail("monitor", "M-noninterference", "redaction-leak:preferred-channel-by-number-prefix",
+				"with URNs redacted and several tel channels, which channel the context shows for the contact depends on the digits of its number", desc)
+		}
+	}
+	c19TwoTelChannels = false
 
 	// ---- the host turns redaction on with a resume: everything evaluated from then on is redacted ---------------
 	for i := 0; i < c.N(40, 1500); i++ {
